@@ -12,7 +12,7 @@ FirstOcc(s) == FirstOccC(s, 1, <<>>)
 ElemOf(e, id) == e.elem[ToString(id)]
 WsKey(ty) == CASE ty = "ws_native" -> 1 [] ty = "ws_plutus" -> 6 [] OTHER -> 4
 SetJudge(e) ==
-  LET sc == e.sc arrived == e.init \o e.adds want == FirstOcc(arrived)
+  LET sc == e.sc arrived == e.init \o e.adds want0 == FirstOcc(arrived)
       sig(w) == "Set/" \o e.type \o "/" \o e.path \o "/" \o w IN
   IF Has(e.r, "panic") THEN Fail(P, sig("panic"), sc, e.r.panic)
   ELSE IF ~Has(e.r, "ok") THEN
@@ -21,8 +21,15 @@ SetJudge(e) ==
   ELSE LET it0 == Parse(e.r.bytes) IN
        IF IsErr(it0) THEN Fail(P, sig("serialized-bytes-malformed"), sc, it0.why) ELSE
        LET isWs == e.type \in {"ws_native", "ws_plutus", "ws_data"}
-           it == IF isWs THEN (IF want = <<>> THEN it0 ELSE GetK(it0, WsKey(e.type))) ELSE it0
-           kids == IF isWs /\ want = <<>> THEN <<>> ELSE Untag(it).kids IN
+           it == IF isWs THEN (IF want0 = <<>> THEN it0 ELSE GetK(it0, WsKey(e.type))) ELSE it0
+           kids == IF isWs /\ want0 = <<>> THEN <<>> ELSE Untag(it).kids
+           \* path "builder": a builder hands its elements out in its own order (some sort them); the order of the constructor part is
+           \* taken as observed - it must be a permutation of the distinct constructor elements - and what add() appends follows it
+           dinit == FirstOcc(e.init)
+           IdOf(b) == IF \E id \in 1..3 : ElemOf(e, id) = b THEN CHOOSE id \in 1..3 : ElemOf(e, id) = b ELSE 0
+           obs == [j \in 1..(IF Len(kids) < Len(dinit) THEN Len(kids) ELSE Len(dinit)) |-> IdOf(Span(e.r.bytes, kids[j]))]
+           want == IF e.path = "builder" /\ Len(obs) = Len(dinit) /\ {obs[j] : j \in 1..Len(obs)} = {dinit[j] : j \in 1..Len(dinit)}
+                   THEN obs \o FirstOcc(SelectSeq(e.adds, LAMBDA x : ~\E j \in 1..Len(dinit) : dinit[j] = x)) ELSE want0 IN
        /\ Obl(P, sc, <<e.type, e.path, Len(e.init), Len(e.adds), Len(want)>>)
        /\ Chk(Len(kids) = Len(want) /\ \A j \in 1..Len(want) : Span(e.r.bytes, kids[j]) = ElemOf(e, want[j]), P,
               IF Len(kids) > Len(want) THEN sig("element-serialized-twice") ELSE IF Len(kids) < Len(want) THEN sig("element-lost") ELSE sig("first-insertion-order-not-kept"), sc,
